@@ -29,6 +29,11 @@ var (
 )
 
 func c08Mk(cfg int) *zygo.Zlisp {
+	// an ordinary, unsandboxed interpreter has been set up (and used) earlier in the same process:
+	// nothing it installed may be visible from a sandbox created afterwards
+	full := zygo.NewZlisp()
+	full.StandardSetup()
+	full.EvalString("(def leakprobe9 1) (defn leakfn9 [] 1)\n")
 	e := zygo.NewZlispSandbox()
 	if cfg == 1 {
 		e.StandardSetup()
@@ -204,7 +209,7 @@ func init() {
 	core.Register(&core.Prop{
 		ID:    "C08",
 		Level: "exploration",
-		Rule: "configurations {NewZlispSandbox() bare; NewZlispSandbox()+StandardSetup(); cmd/zygo -sandbox on a script (thorough: under strace)}. For EVERY name the sandboxed interpreter knows (global bindings, macros, builtins read through the hook accessor, every reserved word, every special form of the compiler) plus 40 names of outside-world primitives that must not be reachable: the name is invoked with 24 argument shapes built from canary paths (a secret script defining a global that holds a random nonce, a secret text, a writable victim file, a marker path), shell command strings and words, environment variable names and $-references, lists/arrays/hashes of those; then through aliases (def x NAME), apply, map, eval of a quoted call, str2sym, a macro expanding to the call, a call made while a macro body runs (directly and through eval; macro bodies run in a duplicated interpreter), expectError / assert / lazy-argument / loop / sort-callback / package-body wrappers, infix blocks and dot-symbol calls. " +
+		Rule: "configurations {NewZlispSandbox() bare; NewZlispSandbox()+StandardSetup(); cmd/zygo -sandbox on a script, alone and combined with -demo / -quiet / -countcalls / -no-liner in either order (thorough: under strace)}, each created after an ordinary unsandboxed interpreter was set up and used in the same process. For EVERY name the sandboxed interpreter knows (global bindings, macros, builtins read through the hook accessor, every reserved word, every special form of the compiler) plus 40 names of outside-world primitives that must not be reachable: the name is invoked with 24 argument shapes built from canary paths (a secret script defining a global that holds a random nonce, a secret text, a writable victim file, a marker path), shell command strings and words, environment variable names and $-references, lists/arrays/hashes of those; then through aliases (def x NAME), aliases bearing the name of an outside-world primitive called directly and through a variable that holds that name, apply, map, eval of a quoted call, str2sym, a macro expanding to the call, a call made while a macro body runs (directly and through eval; macro bodies run in a duplicated interpreter), expectError / assert / lazy-argument / loop / sort-callback / package-body wrappers, infix blocks and dot-symbol calls. " +
 			"Monitors after each action: nonce or secret environment value visible in value / error text / a newly defined global; victim modified, marker or any new path created (content hash, directory listing); sentinel environment variable set; an inotify watch on the canary directory (any open/read/write/create/delete by this process, even when no content surfaces); child death (exit). Thorough: every script also runs in cmd/zygo -sandbox under strace, where any execve, any openat under the canary root, any socket is a violation. non-trivial = every distinct (configuration, name) pair",
 		Assumptions: []string{
 			"outside world = files, processes, environment, exit, sockets; CPU and memory consumption are not part of the statement",
@@ -312,6 +317,12 @@ func c08Run(c *core.Ctx, i int) *core.Result {
 		"(let [p " + q(w.victim) + "] (" + name + " p " + q("x") + "))",
 		"(" + name + " (quote VSECRET))",
 		"(hget (" + name + ") VSECRET:)",
+		// an alias that bears the name of an outside-world primitive, called directly and through a variable holding that name
+		"(def system " + name + ") (system " + q("touch "+w.marker) + ")",
+		"(def system " + name + ") (def xq (quote system)) (xq " + q("touch "+w.marker) + ")",
+		"(def sys " + name + ") (def xq (quote sys)) (xq " + q("touch "+w.marker) + ") (xq " + q(w.secretZy) + ")",
+		"(def slurpf " + name + ") (def xq (quote slurpf)) (xq " + q(w.secretZy) + ")",
+		"(def include " + name + ") ((quote include) " + q(w.secretZy) + ")",
 		// the call made while a macro BODY runs (macro bodies run in a duplicated interpreter), directly and through eval
 		"(defmac xm3 [] (" + name + " " + q(w.secretZy) + ")) (xm3)",
 		"(defmac xm4 [] (eval (quote (" + name + " " + q(w.secretZy) + ")))) (xm4)",
@@ -363,7 +374,9 @@ func c08CLI(c *core.Ctx, res *core.Result, w *c08world, name string) {
 		sp := fmt.Sprintf("%s.%d", script, k)
 		os.WriteFile(sp, []byte(body+"(println Leaked)\n"), 0644)
 		w.reset()
-		args := []string{"-sandbox", "-exitonfail", "-quiet", sp}
+		// -sandbox alone and combined with the other flags of the tool, in either order
+		flagSets := [][]string{{"-sandbox", "-exitonfail", "-quiet"}, {"-sandbox", "-demo", "-exitonfail", "-quiet"}, {"-demo", "-quiet", "-exitonfail", "-sandbox"}, {"-quiet", "-sandbox", "-countcalls", "-exitonfail"}, {"-no-liner", "-sandbox", "-exitonfail", "-quiet"}}
+		args := append(append([]string{}, flagSets[(k+len(name))%len(flagSets)]...), sp)
 		var cmd *exec.Cmd
 		traceFile := sp + ".strace"
 		if c.Thor {
